@@ -118,6 +118,8 @@ def build_odt(seed: int, feature: str | None = None, twin: bool = False):
     use_headings = rng.random() < 0.5
     if feature == "note-with-headings":
         use_headings = not twin
+    if feature == "heading-in-list":
+        use_headings = True      # the risky form adds a heading: keep the twin comparable and notes out (see note-with-headings)
     allow_notes = (not use_headings) or feature == "note-with-headings"
     n_img = 0
 
